@@ -20,7 +20,7 @@ structure Inv (U D : List BlockAbs) (Q : List Hash) (P : List BlockAbs) (s : Sta
   oPar : ∀ o ∈ s.orphans, (s.status o.1.parent).data = true →
     (s.status o.1.parent).knownInvalid = true ∨ o.1.parent ∈ Q
   deliv : ∀ b ∈ D, b.preOk = true → (s.status b.hash).data = true ∨ b ∈ Pool s P ∨
-    (s.status b.parent).knownInvalid = true ∨ b.hash ∈ s.evicted
+    (s.status b.parent).knownInvalid = true ∨ b.hash ∈ s.evicted ∨ (s.status b.hash).knownInvalid = true
 
 theorem wf_eq {U : List BlockAbs} (hwf : WF U) {a b : BlockAbs} (ha : a ∈ U) (hb : b ∈ U) (h : a.hash = b.hash) : a = b :=
   hwf.1 a ha b hb h
@@ -245,7 +245,7 @@ theorem store_connect_spec {U D : List BlockAbs} {Q : List Hash} {P : List Block
         · simp [h]
         · exact h
   · intro b hb hpb
-    rcases hi.deliv b hb hpb with h | h | h | h
+    rcases hi.deliv b hb hpb with h | h | h | h | h
     · left; rw [hd2]; exact hdmono _ h
     · unfold Pool at h; simp at h
       rcases h with h | h | h
@@ -253,7 +253,8 @@ theorem store_connect_spec {U D : List BlockAbs} {Q : List Hash} {P : List Block
       · left; rw [h, hd2]; exact hsd
       · right; left; rw [hpool2]; simp; exact Or.inr h
     · right; right; left; exact hkmono _ h
-    · right; right; right; rw [he2]; exact h
+    · right; right; right; left; rw [he2]; exact h
+    · right; right; right; right; exact hkmono _ h
   · intro h hh; rw [hd2]; exact hdmono h hh
   · intro _; rw [hd2]; exact hsd
 
@@ -297,34 +298,47 @@ theorem maybeAccept_spec {U D : List BlockAbs} {Q : List Hash} {P : List BlockAb
     intro w hw; unfold Pool at hw ⊢; simp at hw ⊢; rcases hw with h | h
     · exact Or.inl h
     · exact Or.inr (Or.inr h)
-  have reject : (k.preOk = true → (s.status k.parent).knownInvalid = true) → Inv U D Q P s := by
+  have reject : (k.preOk = true → (s.status k.parent).knownInvalid = true ∨ (s.status k.hash).knownInvalid = true) →
+      Inv U D Q P s := by
     intro hrej
     refine ⟨hi.c, hi.max, fun w hw => hi.wOK w (hsub w hw), hnd', hi.oPar, ?_⟩
     intro b hb hpre
-    rcases hi.deliv b hb hpre with h | h | h | h
+    rcases hi.deliv b hb hpre with h | h | h | h | h
     · exact Or.inl h
     · unfold Pool at h; simp at h
       rcases h with h | h | h
       · exact Or.inr (Or.inl (by unfold Pool; simp; exact Or.inl h))
-      · subst h; exact Or.inr (Or.inr (Or.inl (hrej hpre)))
+      · subst h
+        rcases hrej hpre with h' | h'
+        · exact Or.inr (Or.inr (Or.inl h'))
+        · exact Or.inr (Or.inr (Or.inr (Or.inr h')))
       · exact Or.inr (Or.inl (by unfold Pool; simp; exact Or.inr h))
     · exact Or.inr (Or.inr (Or.inl h))
-    · exact Or.inr (Or.inr (Or.inr h))
+    · exact Or.inr (Or.inr (Or.inr (Or.inl h)))
+    · exact Or.inr (Or.inr (Or.inr (Or.inr h)))
   obtain ⟨p, hlp⟩ := hi.c.dIdx k.parent hkp
   unfold maybeAccept
   simp only [hlp]
   cases hpk : (s.status k.parent).knownInvalid with
   | true =>
     simp only [if_true]
-    refine ⟨by simpa using reject (fun _ => hpk), ?_⟩
+    refine ⟨by simpa using reject (fun _ => Or.inl hpk), ?_⟩
     simp [adv_refl]
   | false =>
+    simp only [Bool.false_eq_true, if_false]
+    cases hkk : (s.status k.hash).knownInvalid with
+    | true =>
+      simp only [if_true]
+      refine ⟨by simpa using reject (fun _ => Or.inr hkk), ?_⟩
+      simp [adv_refl]
+    | false =>
     simp only [Bool.false_eq_true, if_false]
     cases hhc : (k.hdrOk && k.ctxOk) with
     | false =>
       simp only [Bool.not_false, if_true]
-      have hnp : k.preOk = true → (s.status k.parent).knownInvalid = true := by
+      have hnp : k.preOk = true → (s.status k.parent).knownInvalid = true ∨ (s.status k.hash).knownInvalid = true := by
         intro hpre
+        left
         unfold BlockAbs.preOk at hpre
         simp only [Bool.and_eq_true] at hpre
         simp [hpre.1.2, hpre.2] at hhc
